@@ -139,7 +139,8 @@ def worker_main(prop, seed, start, stride, count, out_dir, wallcap, log_digests,
                 agg['known_hits'][sig] = agg['known_hits'].get(sig, 0) + 1
             else:
                 agg['violation'] = {'index': index, 'hash_seed': os.environ.get('PYTHONHASHSEED'),
-                                    'trace': trace, 'violation': res.violation, 'signature': sig}
+                                    'trace': trace, 'violation': res.violation, 'signature': sig,
+                                    'history': {'start': start, 'stride': stride, 'run_offset': run_offset, 'deep': bool(deep), 'i': i}}
                 break
         i += stride
         done += 1
@@ -350,7 +351,79 @@ def minimise_and_confirm(prop, seed, v, out_dir):
             with open(final) as f:
                 r = json.load(f)
             return True, final, '%s: %s' % (r['violation']['cls'], r['violation']['msg'][:400])
-    return False, final, 'neither the minimised nor the raw trace reproduced in a fresh interpreter: %s' % out[-500:]
+    # the failure may depend on what earlier runs left behind in the worker process (a module-level cache in the library,
+    # say): replay the worker's own history in one fresh process and keep the shortest suffix of it that still fails
+    if v.get('history'):
+        rec['history'] = v['history']
+        with open(raw, 'w') as f:
+            json.dump(rec, f)
+        p = _spawn([prop, '--history', raw, '--out', final], hs)
+        try:
+            out, _ = p.communicate(timeout=900)
+        except subprocess.TimeoutExpired:
+            p.kill()
+            out = 'history replay timed out'
+        if p.returncode == 0 and os.path.exists(final):
+            p = _spawn([prop, '--replay', final], hs)
+            try:
+                out, _ = p.communicate(timeout=RUN_ALARM_S + 600)
+            except subprocess.TimeoutExpired:
+                p.kill()
+                return False, final, 'history replay timed out'
+            if p.returncode == 1 and 'VIOLATION' in out:
+                with open(final) as f:
+                    r = json.load(f)
+                return True, final, '%s: %s  [needs %d earlier run(s) in the same process: state survives between runs]' % (
+                    r['violation']['cls'], r['violation']['msg'][:400], len(r.get('prelude', [])))
+    return False, final, 'neither the minimised nor the raw trace, nor the worker\'s run history, reproduced in a fresh interpreter: %s' % out[-500:]
+
+
+def history_main(prop, raw, out):
+    """re-creates the traces the worker had executed before the failing one and finds the shortest suffix of that history
+    (tried in separate fresh subprocesses) after which the failing trace still fails"""
+    from sim import seams
+    seams.install()
+    mod = load(prop)
+    with open(raw) as f:
+        rec = json.load(f)
+    h = rec['history']
+    traces = []
+    i = h['start']
+    while i < h['i']:
+        st = Streams(mod.PROP, rec['seed'], h['run_offset'] + i)
+        st.deep = h.get('deep', False)
+        t = mod.generate(st)
+        t['prop'] = mod.PROP
+        traces.append(t)
+        i += h['stride']
+    want = rec['violation']['cls']
+
+    def fails_after(prelude):
+        tmp = out + '.try'
+        r = dict(rec)
+        r['prelude'] = prelude
+        with open(tmp, 'w') as f:
+            json.dump(r, f)
+        p = subprocess.run([PY, CHECK, prop, '--replay', tmp], capture_output=True, text=True, env=dict(os.environ), cwd=VERIF)
+        os.remove(tmp)
+        return p.returncode == 1 and want in p.stdout
+
+    if not fails_after(traces):
+        print('the full history does not reproduce either')
+        return 2
+    best = traces
+    for cand in ([], traces[-1:], traces[:1], traces[-2:], traces[-4:], traces[-8:], traces[len(traces) // 2:]):
+        if len(cand) < len(best) and fails_after(cand):
+            best = cand
+            break
+    rec2 = dict(rec)
+    rec2['prelude'] = best
+    rec2['minimised'] = False
+    rec2['replay_cmd'] = '%s %s %s --replay %s' % (PY, CHECK, prop, out)
+    with open(out, 'w') as f:
+        json.dump(rec2, f, indent=1)
+    print('history of %d runs reduced to a prelude of %d' % (len(traces), len(best)))
+    return 0
 
 
 def minimise_main(prop, raw, out):
@@ -391,8 +464,10 @@ def replay_main(prop, path):
     from sim import seams
     seams.install()
     mod = load(prop)
+    for t in rec.get('prelude', []):
+        execute_guarded(mod, t)          # earlier runs of the same worker process; only their side effects matter
     res = execute_guarded(mod, rec['trace'])
-    print('replay %s (seed=%s index=%s hashseed=%s)' % (path, rec.get('seed'), rec.get('index'), hs))
+    print('replay %s (seed=%s index=%s hashseed=%s prelude=%d)' % (path, rec.get('seed'), rec.get('index'), hs, len(rec.get('prelude', []))))
     if res.violation:
         sig = mod.signature(rec['trace'], res.violation)
         if any(e['signature'] == sig for e in known_findings(prop)):
